@@ -390,6 +390,18 @@ func runCase(c Case) *hx.Failure {
 		if f := checkError(in, err, pe); f != nil {
 			return f
 		}
+		// the same input once more: nothing of the failed parse may be left behind (same error again)
+		wdBegin(&c, "parser.Parse (again)")
+		var tree2 *parser.ASTNode
+		var err2 error
+		if f := hx.Guard(func() { tree2, err2 = parser.Parse(srcName, in) }); f != nil {
+			f.Msg = fmt.Sprintf("second parser.Parse(%q): %s", clip(in, 300), f.Msg)
+			f.Sig = "again:" + f.Sig
+			return f
+		}
+		if tree2 != nil || err2 == nil || err2.Error() != err.Error() {
+			return hx.Failf("again:different-outcome", "Parse(%q) failed with %q; parsing the same text again gives tree=%v err=%v", clip(in, 300), err, tree2 != nil, err2)
+		}
 	} else {
 		if shape != nil {
 			return hx.Failf(shape.sig, "Parse(%q) returned no error and a malformed tree: %s", clip(in, 300), shape.msg)
@@ -406,6 +418,9 @@ func runCase(c Case) *hx.Failure {
 		if f := hx.Guard(func() { rtree, rerr = parser.ParseWithRuntime(srcName, in, erp) }); f != nil {
 			f.Msg = fmt.Sprintf("ParseWithRuntime(%q): %s", clip(in, 300), f.Msg)
 			return f
+		}
+		if rerr != nil || rtree == nil || rtree.String() != tree.String() {
+			return hx.Failf("again:different-outcome", "Parse(%q) returned a tree; parsing the same text again (with a runtime provider) gives err=%v and %s", clip(in, 300), rerr, map[bool]string{true: "another tree", false: "no tree"}[rtree != nil])
 		}
 		if rerr == nil && rtree != nil {
 			if s := wellFormed(rtree, false); s != nil {
